@@ -104,6 +104,7 @@ type Exec struct {
 	ownCheck    bool
 	nameCount   map[string]int
 	recDone     map[*Term]bool
+	noOblige    int
 	borrowed    map[*Term]string // array ids / refs owned by the caller
 }
 
@@ -118,7 +119,7 @@ func (ex *Exec) assume(st *State, fact *Term) {
 	if fact.Op == "true" {
 		return
 	}
-	ex.assumptions = append(ex.assumptions, Implies(st.PC(), fact))
+	ex.assumptions = append(ex.assumptions, closeOver(Implies(st.PC(), fact)))
 }
 
 // splitGoal breaks a goal into conjuncts (through implications) so that each query stays small.
@@ -141,7 +142,7 @@ func splitGoal(g *Term) []*Term {
 }
 
 func (ex *Exec) oblige(fr *Frame, st *State, kind, name string, pos token.Pos, src string, goal *Term) {
-	if st.infeasible() {
+	if st.infeasible() || ex.noOblige > 0 {
 		return
 	}
 	if kind != "safety" {
@@ -681,6 +682,9 @@ func (ex *Exec) execLoop(fr *Frame, loops map[*ssa.BasicBlock]*loopInfo, li *loo
 			var out []struct {
 				key string
 				t   *Term
+			}
+			if lc.NoAutoFrame {
+				return out
 			}
 			for _, k := range keys {
 				srt := s.sorts[k]
